@@ -387,3 +387,23 @@ Definition s_holds (pop_size : nat) (o : sobs) : bool :=
   (n <=? pop_size) && (length (s_accepted o) =? n) && forallb (fun b => b) (s_accepted o) &&
   (length (s_equal_pairs o) =? n * (n - 1) / 2) && forallb negb (s_equal_pairs o) &&
   forallb negb (fpairs_eq (s_result o)).
+
+(* ------------------------------------------------------------------ populations from given initial graphs *)
+(* with_initial_graphs(...) and one or more calls of the same generator object: every call answers
+   the first pop_size given graphs (the stored list is truncated once, the adapter maps domain
+   graphs to optimisation graphs of the same structure) *)
+Record eobs := mkEObs {
+  e_given : list forest;             (* the initial graphs handed to with_initial_graphs *)
+  e_results : list (list forest)     (* what each successive call returned *)
+}.
+
+Definition e_agree (pop_size : nat) (o : eobs) : bool :=
+  match initial_population forest forest_eqb (fun _ => true) (fun _ => Raise ValueError) pop_size
+                           MAX_GRAPH_GEN_ATTEMPTS (e_given o) with
+  | (Ok pop, _) => negb (is_nil (e_given o)) && forallb (fun r => all2 forest_same r pop) (e_results o)
+  | _ => false
+  end.
+
+(* never more graphs than requested *)
+Definition e_holds (pop_size : nat) (o : eobs) : bool :=
+  forallb (fun r => length r <=? pop_size) (e_results o).
